@@ -39,6 +39,7 @@ enum Kind {
     Blocking,  // thread-pool job
     InFlight,  // read never fed, still pending when the runtime goes away
     Multi,     // multishot accept stream: two connections arrive in a burst, then the stream is cancelled
+    Migrate,   // read polled once in the main task, then moved into a spawned task and awaited there (fed later)
 }
 
 #[derive(Debug, Clone)]
@@ -58,13 +59,14 @@ fn run_one(run: u64, rng: &mut StdRng, rep: &mut Report, trace_out: &mut Vec<Str
     let cap = *[1u32, 2, 4, 1024].get(rng.random_range(0..4usize)).unwrap();
     let n = rng.random_range(3..7usize);
     let kinds: Vec<Kind> = (0..n)
-        .map(|_| match rng.random_range(0..7u8) {
+        .map(|_| match rng.random_range(0..8u8) {
             0 => Kind::Plain,
             1 => Kind::Timeout,
             2 => Kind::Token,
             3 => Kind::Dropped,
             4 => Kind::Blocking,
             5 => Kind::Multi,
+            6 => Kind::Migrate,
             _ => Kind::InFlight,
         })
         .collect();
@@ -114,8 +116,21 @@ fn run_one(run: u64, rng: &mut StdRng, rep: &mut Report, trace_out: &mut Vec<Str
                 let accepted = accepted.clone();
                 let paths_main = paths.clone();
                 let _ = &paths_main;
-                let h = compio_runtime::spawn(async move {
+                // Migrate: the future is created and polled once HERE (the main task's waker is registered with the
+                // operation), then it moves into the spawned task, whose waker must replace the first one
+                let mut pre = None;
+                if k == Kind::Migrate {
+                    let mut f = Box::pin(compio_runtime::submit(Read::new(rfd.clone(), TBuf::with_capacity(i as u64 + 1, 8))));
                     rec::push("h.task_submit", i as u64, 0);
+                    if futures_util::poll!(f.as_mut()).is_ready() {
+                        panic!("harness: read on an empty pipe completed at its first poll");
+                    }
+                    pre = Some(f);
+                }
+                let h = compio_runtime::spawn(async move {
+                    if pre.is_none() {
+                        rec::push("h.task_submit", i as u64, 0);
+                    }
                     let res: Option<(std::io::Result<usize>, Vec<u8>)> = match k {
                         Kind::Blocking => {
                             let buf = TBuf::with_capacity(i as u64 + 1, 4);
@@ -180,10 +195,14 @@ fn run_one(run: u64, rng: &mut StdRng, rep: &mut Report, trace_out: &mut Vec<Str
                             Some((last, vec![]))
                         }
                         _ => {
-                            let fut = compio_runtime::submit(Read::new(rfd, TBuf::with_capacity(i as u64 + 1, 8)));
-                            let BufResult(r, op) = match token {
-                                Some(t) => fut.with_cancel(t).await,
-                                None => fut.await,
+                            let BufResult(r, op) = if let Some(f) = pre {
+                                f.await
+                            } else {
+                                let fut = compio_runtime::submit(Read::new(rfd, TBuf::with_capacity(i as u64 + 1, 8)));
+                                match token {
+                                    Some(t) => fut.with_cancel(t).await,
+                                    None => fut.await,
+                                }
                             };
                             let mut b = op.into_inner();
                             b.taken = true;
@@ -198,7 +217,7 @@ fn run_one(run: u64, rng: &mut StdRng, rep: &mut Report, trace_out: &mut Vec<Str
                     let mut o = out.borrow_mut();
                     o[i].done = true;
                     match (k, res) {
-                        (Kind::Plain, Some((Ok(nn), data))) => {
+                        (Kind::Plain | Kind::Migrate, Some((Ok(nn), data))) => {
                             o[i].ok = nn == 4 && data == payload(i);
                             o[i].note = format!("read {nn} bytes {data:?}");
                         }
@@ -231,7 +250,7 @@ fn run_one(run: u64, rng: &mut StdRng, rep: &mut Report, trace_out: &mut Vec<Str
             // the script: in random order make things happen
             for &i in &order {
                 match kinds2[i] {
-                    Kind::Plain => {
+                    Kind::Plain | Kind::Migrate => {
                         let w = writers[i].as_ref().unwrap();
                         let p = payload(i);
                         let r = unsafe { libc::write(w.as_raw_fd(), p.as_ptr() as _, p.len()) };
